@@ -930,10 +930,14 @@ theorem getLast?_getElem_lin {α : Type} (c : List α) (l : α) (h : c.getLast? 
 theorem step_lin {r : Repo} {c : List HData} {k m : Nat} (hp : PLin r c k m) (h : Hdr) (ok : Bool)
     (hlin : LinStep r h ok) :
     ∃ (c' : List HData) (k' m' : Nat), PLin (processHeader r h ok).1 c' k' m' ∧
-      (c' = c ∨ ∃ d : HData, d.hdr = h ∧ c' = c ++ [d]) ∧
+      ((c' = c ∧ (processHeader r h ok).2.events = [] ∧ (processHeader r h ok).2.verdict ≠ .ok) ∨
+       (∃ d : HData, d.hdr = h ∧ c' = c ++ [d] ∧ (processHeader r h ok).2.events = [h] ∧
+          (processHeader r h ok).2.verdict = .ok)) ∧
       (processHeader r h ok).1.store.index = r.store.index ∧ (processHeader r h ok).1.cfg = r.cfg := by
   cases hpc : precheck r h ok with
-  | inl v => rw [processHeader_of_inl r h ok v hpc]; exact ⟨c, k, m, hp, Or.inl rfl, rfl, rfl⟩
+  | inl v =>
+    rw [processHeader_of_inl r h ok v hpc]
+    exact ⟨c, k, m, hp, Or.inl ⟨rfl, rfl, precheck_inl_ne_ok r h ok v hpc⟩, rfl, rfl⟩
   | inr x =>
     obtain ⟨pb, ph, lst⟩ := x
     have hpass := precheck_inr r h ok pb ph lst hpc
@@ -979,7 +983,7 @@ theorem step_lin {r : Repo} {c : List HData} {k m : Nat} (hp : PLin r c k m) (h 
       rw [if_neg hnf]
       unfold extendHeader
       cases hw : Work.blockWork h.bits with
-      | none => exact ⟨c, k, m, hp, Or.inl rfl, rfl, rfl⟩
+      | none => exact ⟨c, k, m, hp, Or.inl ⟨rfl, rfl, by simp⟩, rfl, rfl⟩
       | some w =>
         simp only
         have hp1 := addToBranch_lin hp h lst w hlast hprev hnew
@@ -992,8 +996,8 @@ theorem step_lin {r : Repo} {c : List HData} {k m : Nat} (hp : PLin r c k m) (h 
         split
         · obtain ⟨r', k', hcl, hp', _, hi', _, hc', _, _, _⟩ := clean_lin hp1 (Facts.pruneDepth : Int) (by decide)
           rw [hcl]
-          exact ⟨_, k', _, hp', Or.inr ⟨_, rfl, rfl⟩, by rw [hi', hidx1], by rw [hc', hcfg1]⟩
-        · exact ⟨_, k, m, hp1, Or.inr ⟨_, rfl, rfl⟩, hidx1, hcfg1⟩
+          exact ⟨_, k', _, hp', Or.inr ⟨_, rfl, rfl, by simp, trivial⟩, by rw [hi', hidx1], by rw [hc', hcfg1]⟩
+        · exact ⟨_, k, m, hp1, Or.inr ⟨_, rfl, rfl, by simp, trivial⟩, hidx1, hcfg1⟩
 
 /-! ### histories of operations -/
 
@@ -1518,5 +1522,56 @@ theorem linHist_of_B (ops : List LinOp) : ∀ r, linHistB r ops = true → LinHi
       have := hb.1
       simp only [Bool.and_eq_true, decide_eq_true_eq] at this
       exact this
+
+/-! ### the subscriber stream in the linear world -/
+
+def opEvents (r : Repo) : LinOp → List Hdr
+  | .submit h ok => (processHeader r h ok).2.events
+  | _ => []
+
+/-- everything announced to subscribers over a history, in order. -/
+def streamOps : Repo → List LinOp → List Hdr
+  | _, [] => []
+  | r, op :: rest => opEvents r op ++ streamOps (applyOp r op) rest
+
+def NoLoad : List LinOp → Prop
+  | [] => True
+  | .load _ _ :: _ => False
+  | _ :: rest => NoLoad rest
+
+/-- **the announcements of a fork-free history are exactly the accepted headers, in order**: appended to
+    the chain the history started from they give the chain it ends with (any length, across automatic and
+    explicit Cleans and Saves). -/
+theorem stream_lin (ops : List LinOp) : ∀ (r : Repo) (c : List HData) (k m : Nat), PLin r c k m → LinHist r ops → NoLoad ops →
+    ∃ (c' : List HData) (k' m' : Nat), PLin (runOps r ops) c' k' m' ∧
+      c'.map (·.hdr) = c.map (·.hdr) ++ streamOps r ops := by
+  induction ops with
+  | nil => intro r c k m hp _ _; exact ⟨c, k, m, hp, by simp [streamOps]⟩
+  | cons op rest ih =>
+    intro r c k m hp hh hnl
+    obtain ⟨hop, hrest⟩ := hh
+    simp only [runOps, List.foldl_cons, streamOps]
+    cases op with
+    | submit h ok =>
+      obtain ⟨c1, k1, m1, hp1, hcase, _, _⟩ := step_lin hp h ok hop
+      obtain ⟨c', k', m', hp', hmap⟩ := ih _ c1 k1 m1 hp1 hrest hnl
+      refine ⟨c', k', m', hp', ?_⟩
+      rw [hmap]
+      rcases hcase with ⟨rfl, hev, _⟩ | ⟨d, hd, rfl, hev, _⟩
+      · simp only [opEvents, hev, List.nil_append]; rfl
+      · simp only [opEvents, hev, List.map_append, List.map_cons, List.map_nil, hd, List.append_assoc]; rfl
+    | clean d =>
+      obtain ⟨r', k1, hcl, hp1, _⟩ := clean_lin hp d hop
+      have : applyOp r (.clean d) = r' := by simp only [applyOp, hcl]
+      rw [this] at hrest ⊢
+      obtain ⟨c', k', m', hp', hmap⟩ := ih _ c k1 _ hp1 hrest hnl
+      exact ⟨c', k', m', hp', by rw [hmap]; simp [opEvents]⟩
+    | save =>
+      obtain ⟨r', d0, hs, hp1, _⟩ := save_lin hp
+      have : applyOp r .save = r' := by simp only [applyOp, hs]
+      rw [this] at hrest ⊢
+      obtain ⟨c', k', m', hp', hmap⟩ := ih _ c k _ hp1 hrest hnl
+      exact ⟨c', k', m', hp', by rw [hmap]; simp [opEvents]⟩
+    | load d g => exact absurd hnl (by simp [NoLoad])
 
 end BRV.Repo
